@@ -2245,6 +2245,14 @@ def _c01_task(acc, task, tier, seed, d, state):
                     where = "values" if a[0] != b[0] else "generated-files"
                     first = next((key for key in a[0] if a[0][key] != b[0].get(key)), None)
                     reason = _hidden_reason(model, sp, hname)
+                    # one specific shape gets its own class: the hidden option is a choice member that was picked (y)
+                    # after another member had been picked -- the pick is remembered as the choice's user selection
+                    picked = [op for op in cfg if op[1] == hname and (op[0] == "pick" or (op[0] == "set" and op[2] in (2, "y")))]
+                    other_picks = [op for op in cfg if op[1] != hname and (op[0] == "pick" or (op[0] == "set" and len(op) > 2 and op[2] in (2, "y")))
+                                   and op[1] in k.syms and k.syms[op[1]].choice is not None
+                                   and k.syms[op[1]].choice is k.syms[hname].choice]
+                    if k.syms[hname].choice is not None and picked and other_picks:
+                        reason += ":pick-of-hidden-member-displaces-earlier-pick"
                     acc.violation(
                         "hidden-user-value-has-effect:%s:%s" % (reason, where),
                         "Symbol.set_value on an option whose prompt condition is false: every output identical to the same configuration without it",
